@@ -86,6 +86,9 @@ pub struct VoiceOpts {
     /// the duration tree is a chain with exactly this many leaves (the first data byte is the
     /// low byte of that count)
     pub dur_leaves: Option<usize>,
+    /// rotation applied to the option list of the spectrum stream (the header may list the
+    /// options in any order; voices of one set must agree, so this is part of the shape)
+    pub opt_order: usize,
 }
 
 pub const WINDOW_SETS: [&[&[f64]]; 6] = [
@@ -129,6 +132,7 @@ impl VoiceOpts {
             shuffle_nodes: rng.chance(0.4),
             varying_regex_root: false,
             dur_leaves: if rng.chance(0.15) { Some(*rng.pick(&[10usize, 10, 13, 32, 9])) } else { None },
+            opt_order: rng.below(6),
         }
     }
     /// small and fast: for interpreters (Miri) and exhaustive histories
@@ -157,6 +161,7 @@ impl VoiceOpts {
             shuffle_nodes: false,
             varying_regex_root: false,
             dur_leaves: None,
+            opt_order: 0,
         }
     }
     pub fn describe(&self) -> String {
@@ -448,7 +453,13 @@ pub fn generate(opts: &VoiceOpts, pool: &QuestionPool, rng: &mut Rng) -> VoiceSp
         mcp_opts.push(format!("LN_GAIN={}", ln_gain as u8));
     }
     // the header may list the options in any order
-    rng.shuffle(&mut mcp_opts);
+    if mcp_opts.len() > 1 {
+        let k = opts.opt_order % mcp_opts.len();
+        mcp_opts.rotate_left(k);
+        if opts.opt_order >= 3 {
+            mcp_opts.reverse();
+        }
+    }
     let gv_mcp = if opts.gv_mcp && !transparent {
         Some(gen_model(rng, pool, "gv_mgc_", &[2], vlen * 2, opts.max_depth.min(2), false, None, |rng, _| {
             let mut v: Vec<f32> = (0..vlen)
